@@ -17,6 +17,8 @@
 //	reach <a> <pub|priv|unk>     Reachable(a, status)             -> ok
 //	self <pub|priv|unk>          UpdateReachability               -> ok
 //	radius <r>                   SetRadius                        -> ok
+//	racerecalc <n> <ev0> <ev1>…  ev0 is parked at the n-th filter call of its depth recalculation while
+//	                             ev1… are fired from another goroutine (see race.go)  -> <res0>,<res1>,… d=<depth> | norace
 //	depth                        NeighborhoodDepth                -> n
 //	depthx <seed>                NeighborhoodDepth (the oracle additionally rebuilds the same peer set
 //	                             in a permuted connection order on a second Kad)  -> n
@@ -31,6 +33,7 @@ import (
 	"errors"
 	"fmt"
 	"io"
+	"os"
 	"sort"
 	"strconv"
 	"strings"
@@ -109,14 +112,21 @@ type Runner struct {
 	Before     func(ctx *core.Ctx, r *Runner, op []string)             // optional: look at the pre-state
 	Scratch    interface{}                                             // oracle-private data
 
-	db *shed.DB
+	db   *shed.DB
+	gate *gate // in front of the Kad's reachability filter (race.go); passes everything unless armed
 }
 
 func NewRunner(after func(ctx *core.Ctx, r *Runner, op []string, out string)) *Runner {
 	return &Runner{After: after}
 }
 
-func (r *Runner) Close() { r.drop() }
+func (r *Runner) Close() {
+	r.drop()
+	if os.Getenv("VERIF_KADH_STATS") != "" {
+		fmt.Fprintf(os.Stderr, "kadh: racerecalc ops=%d parked=%d blocked-until-release=%d overlapped-completely=%d\n",
+			RaceStats.Ops, RaceStats.Parked, RaceStats.Blocked, RaceStats.Overlapped)
+	}
+}
 
 func (r *Runner) drop() {
 	if r.K != nil {
@@ -263,7 +273,9 @@ func (r *Runner) Counts(known bool) (reach, total [32]int) {
 }
 
 // SelfPublic is the implementation's own view of the node's reachability status.
-func (r *Runner) SelfPublic() bool { return r.K.Snapshot().Reachability == p2p.ReachabilityStatusPublic.String() }
+func (r *Runner) SelfPublic() bool {
+	return r.K.Snapshot().Reachability == p2p.ReachabilityStatusPublic.String()
+}
 
 func (r *Runner) IsStatic(a boson.Address) bool    { return a.MemberOf(r.Static) }
 func (r *Runner) IsProtected(a boson.Address) bool { return a.MemberOf(r.Protect) }
@@ -301,6 +313,7 @@ func (r *Runner) step(ctx *core.Ctx, op []string) string {
 			return "err"
 		}
 		r.K, r.db = k, db
+		r.installGate()
 		return "ok"
 	}
 	if r.K == nil {
@@ -308,7 +321,6 @@ func (r *Runner) step(ctx *core.Ctx, op []string) string {
 	}
 	k := r.K
 	r.Kicked = nil
-	bg := context.Background()
 	switch op[0] {
 	case "add":
 		if len(op) != 2 {
@@ -320,70 +332,19 @@ func (r *Runner) step(ctx *core.Ctx, op []string) string {
 		}
 		k.AddPeers(as...)
 		return "ok"
-	case "conn":
-		if len(op) != 3 || (op[2] != "0" && op[2] != "1") {
+	case "conn", "out", "disc", "force":
+		if !ValidEvent(op) {
 			return "bad-op"
 		}
-		a, ok := ParseAddr(op[1])
-		if !ok {
-			return "bad-op"
+		res := r.callEvent(op)
+		if op[0] == "conn" {
+			for _, x := range r.Kicked {
+				ctx.Annotate("kick", core.Hex(x.Bytes()))
+				delete(r.Live, x.ByteString())
+			}
 		}
-		err := k.Connected(bg, FullPeer(a), op[2] == "1")
-		for _, x := range r.Kicked {
-			ctx.Annotate("kick", core.Hex(x.Bytes()))
-			delete(r.Live, x.ByteString())
-		}
-		switch {
-		case err == nil:
-			r.Live[a.ByteString()] = true
-			r.StaleReach = false
-			return "ok"
-		case errors.Is(err, topology.ErrOversaturated):
-			return "oversat"
-		}
-		return "err"
-	case "out":
-		if len(op) != 3 || (op[2] != "full" && op[2] != "boot") {
-			return "bad-op"
-		}
-		a, ok := ParseAddr(op[1])
-		if !ok {
-			return "bad-op"
-		}
-		if op[2] == "boot" {
-			k.Outbound(BootPeer(a))
-		} else {
-			k.Outbound(FullPeer(a))
-			r.Live[a.ByteString()] = true
-			r.StaleReach = false
-		}
-		return "ok"
-	case "disc":
-		if len(op) != 2 {
-			return "bad-op"
-		}
-		a, ok := ParseAddr(op[1])
-		if !ok {
-			return "bad-op"
-		}
-		k.Disconnected(FullPeer(a), "verif")
-		delete(r.Live, a.ByteString())
-		r.StaleReach = false
-		return "ok"
-	case "force":
-		if len(op) != 2 {
-			return "bad-op"
-		}
-		a, ok := ParseAddr(op[1])
-		if !ok {
-			return "bad-op"
-		}
-		if err := k.DisconnectForce(a, "verif"); err != nil {
-			return "err"
-		}
-		delete(r.Live, a.ByteString())
-		r.StaleReach = false
-		return "ok"
+		r.bookEvent(op, res)
+		return res
 	case "pick":
 		if len(op) != 2 {
 			return "bad-op"
@@ -404,18 +365,15 @@ func (r *Runner) step(ctx *core.Ctx, op []string) string {
 		r.Protect = as
 		k.RefreshProtectPeer(as)
 		return "ok"
-	case "reach":
-		if len(op) != 3 {
+	case "reach", "radius":
+		if !ValidEvent(op) {
 			return "bad-op"
 		}
-		a, ok := ParseAddr(op[1])
-		st, ok2 := parseStatus(op[2])
-		if !ok || !ok2 {
-			return "bad-op"
-		}
-		k.Reachable(a, st)
-		r.StaleReach = st != p2p.ReachabilityStatusPublic
-		return "ok"
+		res := r.callEvent(op)
+		r.bookEvent(op, res)
+		return res
+	case "racerecalc":
+		return r.raceRecalc(ctx, op)
 	case "self":
 		if len(op) != 2 {
 			return "bad-op"
@@ -425,20 +383,6 @@ func (r *Runner) step(ctx *core.Ctx, op []string) string {
 			return "bad-op"
 		}
 		k.UpdateReachability(st)
-		return "ok"
-	case "radius":
-		if len(op) != 2 {
-			return "bad-op"
-		}
-		n, err := strconv.Atoi(op[1])
-		if err != nil || n < 0 || n > 255 {
-			return "bad-op"
-		}
-		if uint8(n) != r.Radius {
-			r.StaleReach = false
-		}
-		r.Radius = uint8(n)
-		k.SetRadius(uint8(n))
 		return "ok"
 	case "depth":
 		if len(op) != 1 {
